@@ -1382,7 +1382,7 @@ Definition e_resz (r : res Z) : list Z := match r with Ok v => [0; v] | Err e =>
 Definition e_respair (r : res (Z * Z)) : list Z := match r with Ok (a, b) => [0; a; b] | Err e => [1; err_code e] end.
 Definition e_rescanv (r : res canv) : list Z :=
   match r with
-  | Ok c => [0; cc c; cr c] ++ (match cur c with Some (x, y) => [1; x; y] | None => [0; 0; 0] end) ++ [if rect c then 1 else 0]
+  | Ok c => [0; cc c; cr c] ++ (match cur c with Some (x, y) => [1; x; y] | None => [0; 0; 0] end)
   | Err e => [1; err_code e]
   end.
 Definition e_bool (b : bool) : Z := if b then 1 else 0.
